@@ -643,6 +643,64 @@ mut("c02-uncomparable-shortcut", "C02", "location.go",
     "\tsame := true\n\tfor j, loc := range joined {\n\t\tlocs[j] = loc.Shift(i, n)\n\t\tsame = same && locs[j] == loc\n\t}\n\t_ = same\n\treturn Join(locs...)",
     ["UNCOMPARABLE|gts.Joined.Shift|compare#1"], note="positive example: interface comparison that panics for nested joins")
 
+# ---------------------------------------------------------------- round-5 rules
+mut("c05-identity-reverse-wholespan", "C05", "location.go",
+    "func (ranged Ranged) Reverse(length int) Location {\n",
+    "func (ranged Ranged) Reverse(length int) Location {\n\tif ranged.Start == 0 && ranged.End == length {\n\t\treturn ranged\n\t}\n",
+    ["IDENTITY-RETURN|gts.Ranged.Reverse"])
+mut("c02-identity-silent-flipped-zero", "C02", "location.go",
+    "func (ranged Ranged) Shift(i, n int) Location {\n\tif n == 0 {\n\t\treturn ranged\n\t}",
+    "func (ranged Ranged) Shift(i, n int) Location {\n\tif 0 == n {\n\t\treturn ranged\n\t}", silent=True)
+mut("c12-kindset-one-base-point", "C12", "location.go",
+    "\tif start == end {\n\t\treturn Between(start)\n\t}\n\treturn Ranged{start, end, partial}",
+    "\tif start == end {\n\t\treturn Between(start)\n\t}\n\tif start+1 == end {\n\t\treturn Point(start)\n\t}\n\treturn Ranged{start, end, partial}",
+    ["KIND-SET|gts.Ranged.Expand"])
+mut("c07-mapinit-nil-store", "C07", "seqio/genbank_subparsers.go",
+    "\t\t\tref.Xref = map[string]string{\"PUBMED\": string(result.Token)}\n",
+    "\t\t\tref.Xref[\"PUBMED\"] = string(result.Token)\n",
+    ["MAP-INIT|gts/seqio.genbankReferenceSubfieldParser|map-store#1(Xref)"])
+mut("c07-mapinit-silent-made-first", "C07", "seqio/genbank_subparsers.go",
+    "\t\t\tref.Xref = map[string]string{\"PUBMED\": string(result.Token)}\n",
+    "\t\t\tref.Xref = make(map[string]string)\n\t\t\tref.Xref[\"PUBMED\"] = string(result.Token)\n", silent=True)
+mut("c15-flush-skipped", "C15", "cmd/gts/split.go",
+    "\t\tcase len(rr) == 0:\n\t\t\tif _, err := writer.WriteSeq(seq); err != nil {\n\t\t\t\treturn ctx.Raise(err)\n\t\t\t}\n",
+    "\t\tcase len(rr) == 0:\n\t\t\tif _, err := writer.WriteSeq(seq); err != nil {\n\t\t\t\treturn ctx.Raise(err)\n\t\t\t}\n\t\t\tcontinue\n",
+    ["FLUSH-ALL|main.split"])
+mut("c14-key11-cachedir-error", "C14", "cmd/gts/io.go",
+    "\tdir, err := gtsCacheDir()\n\tif err != nil {\n\t\treturn false, nil\n\t}",
+    "\tdir, err := gtsCacheDir()\n\tif err != nil {\n\t\treturn false, err\n\t}",
+    ["KEY-11|main.ioDelegate.TryCache|gts.gtsCacheDir#1"])
+mut("c12-early-exit-repair", "C12", "feature.go",
+    "\t// Identify the features with similar keys and values.\n",
+    "\tif len(gg) < 2 {\n\t\treturn gg\n\t}\n\n\t// Identify the features with similar keys and values.\n",
+    ["NO-EARLY-EXIT|gts.Repair"], note="flagged although harmless for this guard: the rule cannot tell a sound shortcut from an unsound one and fails closed")
+mut("c06-parse-reject-ambiguous", "C06", "location.go",
+    "\tend := result.Value.(int)\n\tresult.SetValue(Ambiguous{start, end})",
+    "\tend := result.Value.(int)\n\tif end <= start+1 {\n\t\tstate.Pop()\n\t\treturn fmt.Errorf(\"%d.%d: coordinates should be ascending\", start+1, end)\n\t}\n\tresult.SetValue(Ambiguous{start, end})",
+    ["PARSE-REJECT|gts.parseAmbiguous"])
+mut("c16-index-atoi", "C16", "seqio/genbank_subparsers.go",
+    "\t\tprefix := []byte(fmt.Sprintf(\"%9d\", i+1))\n\t\tif !bytes.HasPrefix(p[offset:], prefix) {\n\t\t\treturn pars.NewError(\"expected sequence index\", pos)\n\t\t}\n\t\toffset += len(prefix)\n\t\tpos.Byte += len(prefix)\n",
+    "\t\tif index, err := strconv.Atoi(string(bytes.TrimLeft(p[offset:offset+9], \" \"))); err != nil || index != i+1 {\n\t\t\treturn pars.NewError(\"expected sequence index\", pos)\n\t\t}\n\t\toffset += 9\n\t\tpos.Byte += 9\n",
+    ["INDEX-EXACT|seqio.validateOrigin|index"])
+mut("c01-wrapjoin-source-reverted", "C01", "seqio/genbank_subparsers.go",
+    "\tsourceBodyParser := genbankFieldBodyParser(depth, ' ')\n", "\tsourceBodyParser := genbankFieldBodyParser(depth, '\\n')\n",
+    ["WRAP-JOIN|seqio.SOURCE"], note="the repaired defect, reintroduced")
+mut("c01-wrapjoin-organism-reverted", "C01", "seqio/genbank.go",
+    "\torganism := AddPrefix(gb.Fields.Source.Name, indent)\n", "\torganism := AddPrefix(wrap.Space(gb.Fields.Source.Name, 67), indent)\n",
+    ["WRAP-JOIN|seqio.ORGANISM"], note="the repaired defect, reintroduced")
+mut("c01-qualformat-unknown-flag", "C01", "seqio/insdc.go",
+    "\tdefault:\n\t\treturn fmt.Sprintf(\"/%s=\\\"%s\\\"\", name, value)\n\t}\n}",
+    "\tdefault:\n\t\tif value == \"\" {\n\t\t\treturn \"/\" + name\n\t\t}\n\t\treturn fmt.Sprintf(\"/%s=\\\"%s\\\"\", name, value)\n\t}\n}",
+    ["QUAL-FORMAT|seqio.QualifierIO.String"])
+mut("c04-fmap-normalize-guarded", "C04", "sequence.go",
+    "\t\tf.Loc = f.Loc.Expand(0, n).Normalize(Len(seq))\n",
+    "\t\tf.Loc = f.Loc.Expand(0, n)\n\t\tif r := f.Loc.Region(); Max(r.Head(), r.Tail()) > Len(seq) {\n\t\t\tf.Loc = f.Loc.Normalize(Len(seq))\n\t\t}\n",
+    ["FMAP|gts.Rotate|features-loop#1"])
+mut("c19-less-unwrap-hoisted", "C19", "location.go",
+    "func LocationLess(a, b Location) bool {\n\tif c, ok := a.(Complemented); ok {\n\t\treturn LocationLess(c.Location, b)\n\t}\n\n\tif c, ok := b.(Complemented); ok {\n\t\treturn LocationLess(a, c.Location)\n\t}\n\n\tif ll, ok := a.(locationSlice); ok {\n\t\tfor _, l := range ll.slice() {\n\t\t\tif LocationLess(l, b) {",
+    "func LocationLess(a, b Location) bool {\n\tif c, ok := a.(Complemented); ok {\n\t\ta = c.Location\n\t}\n\tif c, ok := b.(Complemented); ok {\n\t\tb = c.Location\n\t}\n\treturn locationLessParts(a, b)\n}\n\nfunc locationLessParts(a, b Location) bool {\n\tif ll, ok := a.(locationSlice); ok {\n\t\tfor _, l := range ll.slice() {\n\t\t\tif locationLessParts(l, b) {",
+    ["LESS-UNWRAP|gts.LocationLess"], old2="\t\tfor _, l := range ll.slice() {\n\t\t\tif !LocationLess(a, l) {", new2="\t\tfor _, l := range ll.slice() {\n\t\t\tif !locationLessParts(a, l) {")
+
 if __name__ == "__main__":
     here = os.path.dirname(os.path.abspath(__file__))
     ids = [m["id"] for m in M]
